@@ -547,3 +547,15 @@ def run_case(case, ctx):
 def classify(case, witness):
     """No open finding for C19 (the two co_min/co_max/co_median NaN defects are repaired in the repository)."""
     return None
+
+
+# floors for the call-history workloads added in session 3 (a run in which they were silently skipped is inconclusive)
+_floors_base = floors
+_FLOORS_EXTRA = {'monitors': {'second_addCollection.same_bands': 300}, 'classes': {'median_requested_before_another_aggregate': 1000}}
+
+
+def floors(tier):
+    f = _floors_base(tier)
+    for kind, d in _FLOORS_EXTRA.items():
+        f.setdefault(kind, {}).update(d)
+    return f
